@@ -61,7 +61,9 @@ RULE = ("histories of simulation.set_input on one real Variable (float/int x day
         "(whose stored value must stay what it was).  A big-int stream gives int variables amounts whose equal "
         "share is an odd integer above 2^24 (exact in int32, not in binary32); a long-reading stream reads the "
         "variable (simulation.calculate) for every piece of a window of 1080..1461 pieces around a long input, "
-        "then sums, confirms and contradicts the long period.  Non-trivial: at least one long input was accepted or "
+        "then sums, confirms and contradicts the long period.  A fifth of the tiled histories clone the "
+        "simulation (Simulation.clone) before a random step and run the rest of the history on the original "
+        "and on the clone (either first): each must end up as the model says for the whole history.  Non-trivial: at least one long input was accepted or "
         "refused as a contradiction; distinct as whole histories")
 TRUSTED = ["numpy float32 arithmetic on exactly representable dyadic values and int32 truncation are modelled by exact "
            "rationals / Z.quot in SetInput.v; covered by the correspondence only",
@@ -166,6 +168,8 @@ def coq_case(c):
             continue
         vals = clist([cq(frac(x)) for x in s["vals"]])
         steps.append(f"(SSet {cperiod(s['p'])} {vals} {cbool(s.get('add', False))} {cbool(s.get('approx', False))})")
+    if c.get("clone_at") is not None:
+        return f"(KClone {cv} {cz(c['n'])} {int(c['clone_at'])} {clist(steps)})"
     return f"(KHist {cv} {cz(c['n'])} {clist(steps)})"
 
 
@@ -206,39 +210,71 @@ def period_arg(s):
     return P, P
 
 
+def cleanup(sim):
+    # remove the simulation's temp dir now (and tell the storages not to try again when collected)
+    for pop in sim.populations.values():
+        for h in pop._holders.values():
+            if h._disk_storage is not None:
+                h._disk_storage.preserve_storage_dir = True
+    d = sim._data_storage_dir
+    if d is not None:
+        shutil.rmtree(d, ignore_errors=True)
+
+
 def run_impl(c):
+    """One history on one simulation; with "clone_at" = k the simulation is cloned (Simulation.clone)
+    before step k and the rest of the history is run, step by step, on both: [original's, clone's]."""
     name = ensure_var(c["var"])
     sim = SimulationBuilder().build_default_simulation(_tbs, count=c["n"])
     if c.get("disk"):
         # legal (experimental) configuration: every array is kept on disk, none in memory
         sim.memory_config = MemoryConfig(max_memory_occupation=0)
+    k = c.get("clone_at")
+    sims = [sim]
     try:
-        return run_history(c, name, sim)
+        first = Runner(c, name, sim)
+        if k is None:
+            return [first.step(s) for s in c["steps"]]
+        out, out2 = [], []
+        second = None
+        for i, s in enumerate(c["steps"]):
+            if i == k:
+                sims.append(sim.clone())
+                second = Runner(c, name, sims[1])
+            if second is None:
+                out.append(first.step(s))
+            elif c.get("clone_first"):
+                out2.append(second.step(s))
+                out.append(first.step(s))
+            else:
+                out.append(first.step(s))
+                out2.append(second.step(s))
+        if second is None:
+            sims.append(sim.clone())
+        return [out, out2]
     finally:
-        # remove the simulation's temp dir now (and tell the storages not to try again when collected)
-        for pop in sim.populations.values():
-            for h in pop._holders.values():
-                if h._disk_storage is not None:
-                    h._disk_storage.preserve_storage_dir = True
-        d = sim._data_storage_dir
-        if d is not None:
-            shutil.rmtree(d, ignore_errors=True)
+        for x in sims:
+            cleanup(x)
 
 
-def run_history(c, name, sim):
-    out = []
-    buffers = {}      # one array object per dtype, refilled in place (form "buf")
-    dtype = numpy.float32 if c["var"]["vt"] == "float" else numpy.int32
-    src = "src_float" if c["var"]["vt"] == "float" else "src_int"
-    last = None       # the array object given to the previous call (form "same" gives it again, as it is)
-    for s in c["steps"]:
+class Runner:
+    """Applies the steps of a history to one simulation."""
+
+    def __init__(self, c, name, sim):
+        self.c, self.name, self.sim = c, name, sim
+        self.buffers = {}      # one array object per length, refilled in place (form "buf")
+        self.dtype = numpy.float32 if c["var"]["vt"] == "float" else numpy.int32
+        self.src = "src_float" if c["var"]["vt"] == "float" else "src_int"
+        self.last = None       # the array object given to the previous call (form "same" gives it again, as it is)
+
+    def step(self, s):
+        c, name, sim = self.c, self.name, self.sim
         if s.get("op") == "del":
             if s["p"] is None:
                 sim.delete_arrays(name)
             else:
                 sim.delete_arrays(name, period_arg(s)[1])
-            out.append([0, dump(sim.get_holder(name)), None])
-            continue
+            return [0, dump(sim.get_holder(name)), None]
         if s.get("op") == "calc":
             # the variable is read for every definition-period piece of the window
             try:
@@ -247,26 +283,25 @@ def run_history(c, name, sim):
                 status = 0
             except Exception as e:  # noqa: BLE001
                 status = Err(errkind(e), f"{type(e).__name__}: {e}"[:200])
-            out.append([status, dump(sim.get_holder(name)), None])
-            continue
+            return [status, dump(sim.get_holder(name)), None]
         P, arg = period_arg(s)
         if s.get("form") == "buf":
-            buf = buffers.get(len(s["vals"]))
+            buf = self.buffers.get(len(s["vals"]))
             if buf is None:
-                buf = buffers[len(s["vals"])] = numpy.zeros(len(s["vals"]), dtype=dtype)
+                buf = self.buffers[len(s["vals"])] = numpy.zeros(len(s["vals"]), dtype=self.dtype)
             buf[:] = s["vals"]
             value = buf
-        elif s.get("form") == "same" and last is not None and len(last) == len(s["vals"]):
-            value = last
+        elif s.get("form") == "same" and self.last is not None and len(self.last) == len(s["vals"]):
+            value = self.last
         elif s.get("form") in ("same", "own"):
-            value = numpy.array(s["vals"], dtype=dtype)       # already of the variable's dtype: not converted
+            value = numpy.array(s["vals"], dtype=self.dtype)       # already of the variable's dtype: not converted
         elif s.get("form") == "src":
             # the amount is another variable's value, as simulation.calculate returns it
-            sim.set_input(src, periods.period(U.ETERNITY), list(s["vals"]))
-            value = sim.calculate(src, P)
+            sim.set_input(self.src, periods.period(U.ETERNITY), list(s["vals"]))
+            value = sim.calculate(self.src, P)
         else:
             value = input_value(s, c["var"]["vt"])
-        last = value if isinstance(value, numpy.ndarray) else None
+        self.last = value if isinstance(value, numpy.ndarray) else None
         try:
             sim.set_input(name, arg, value)
             status = 0
@@ -282,14 +317,29 @@ def run_history(c, name, sim):
         o = [status, dump(sim.get_holder(name)), add]
         if s.get("form") == "src":
             # what the source variable holds after its value was used as an amount
-            o.append([frac(x.item()) for x in sim.get_array(src, P)])
-        out.append(o)
-    return out
+            o.append([frac(x.item()) for x in sim.get_array(self.src, P)])
+        return o
+
+
+def split_obs(c, obs):
+    """[(history observation as if run on one simulation, label)]: the original's, and - when the
+    simulation was cloned before step k - the clone's, completed with the original's first k steps."""
+    k = c.get("clone_at")
+    if k is None:
+        return [(obs, "")]
+    return [(obs[0], ""), (obs[0][:k] + obs[1], " (on the cloned simulation)")]
 
 
 def obs_for_coq(c, obs):
     if isinstance(obs, Err):
         return obs
+    hists = [hist_for_coq(c, h) for h, _ in split_obs(c, obs)]
+    if c.get("clone_at") is None:
+        return hists[0]
+    return [hists[0], hists[1][c["clone_at"]:]]
+
+
+def hist_for_coq(c, obs):
     out = []
     before = {}
     for s, o in zip(c["steps"], obs):
@@ -417,6 +467,21 @@ def close(a, b):
 
 
 def oracle(c, obs):
+    """The property holds on every simulation for its own history of calls: the one built, and a clone of it
+    taken mid-way that receives the rest of the history as well.  The open finding is reported last."""
+    if isinstance(obs, Err):
+        return f"driver-failed: {obs.kind} {obs.msg}"
+    msgs = [(oracle_hist(c, h), label) for h, label in split_obs(c, obs)]
+    for m, label in msgs:
+        if m and not m.startswith("int-share-truncated:"):
+            return m + label
+    for m, label in msgs:
+        if m:
+            return m
+    return None
+
+
+def oracle_hist(c, obs):
     if isinstance(obs, Err):
         return f"driver-failed: {obs.kind} {obs.msg}"
     v = c["var"]
@@ -550,6 +615,14 @@ def known(c, obs, msg):
     v = c["var"]
     if v["vt"] != "int" or v["rule"] != "div":
         return None
+    for h, _ in split_obs(c, obs):
+        if known_hist(c, h):
+            return "int-divide-truncates-share"
+    return None
+
+
+def known_hist(c, obs):
+    v = c["var"]
     before = {}
     for s, o in zip(c["steps"], obs):
         after = {key_of(k): vals for k, vals in o[1]}
@@ -584,6 +657,7 @@ def nontrivial(c, o):
     """A rule spread an input over at least two sub-periods, or refused a contradiction."""
     if isinstance(o, Err) or c["var"]["rule"] == "none":
         return False
+    o = split_obs(c, o)[0][0]
     size = 0
     for st in o:
         if isinstance(st[0], Err) and st[0].kind == "EValue" and len(st[1]) > 0:
@@ -605,8 +679,11 @@ def classify(c, o):
         tag += ":calc"
     if any(s.get("approx") for s in c["steps"]):
         tag += ":approx"
+    if c.get("clone_at") is not None:
+        tag += ":clone"
     if isinstance(o, Err):
         return tag + ":driver-" + o.kind
+    o = split_obs(c, o)[0][0]
     kinds = sorted({st[0].kind for st in o if isinstance(st[0], Err)})
     if kinds:
         tag += ":" + "+".join(kinds)
@@ -642,17 +719,27 @@ def normalise(c):
             steps.append(s)
             break
         steps.append(s)
-    return dict(c, steps=steps)
+    c = dict(c, steps=steps)
+    if c.get("clone_at") is not None:
+        c["clone_at"] = min(c["clone_at"], len(steps))
+    return c
 
 
 def shrink(c, still_fails):
     cur = c
+    if c.get("clone_at") is not None:
+        cand = {k: v for k, v in c.items() if k not in ("clone_at", "clone_first")}
+        if still_fails(cand):
+            cur = cand
     progress = True
     while progress:
         progress = False
         i = 0
         while i < len(cur["steps"]) and len(cur["steps"]) > 1:
-            cand = normalise(dict(cur, steps=cur["steps"][:i] + cur["steps"][i + 1:]))
+            cand = dict(cur, steps=cur["steps"][:i] + cur["steps"][i + 1:])
+            if cur.get("clone_at") is not None and i < cur["clone_at"]:
+                cand["clone_at"] = cur["clone_at"] - 1
+            cand = normalise(cand)
             if still_fails(cand):
                 cur, progress = cand, True
             else:
@@ -1063,7 +1150,12 @@ def structured(rng, var, stream, big=False, pattern=None, base=None):
             b.push(t, b.tile_vals(), "tile-again")
     elif r < 0.6:
         b.long(base, mode=rng.choice(["exact", "contradict"]))
-    return b.case()
+    c = b.case()
+    if not big and len(c["steps"]) >= 2 and rng.random() < 0.2:
+        # the simulation is cloned mid-way; the rest of the history goes to the original and to the clone
+        c["clone_at"] = rng.randrange(1, len(c["steps"]))
+        c["clone_first"] = rng.random() < 0.5
+    return c
 
 
 def all_subsets(rng, var, stream, base):
